@@ -251,7 +251,7 @@ class FlagAnalysis:
         rets = {}
         for (i, s, rv) in st['rets']:
             rets.setdefault(rv, set()).add(s)
-        if all(s == {'U'} for s in rets.values()): return None
+        if all(s <= {'U', 'T0', 'F0'} for s in rets.values()): return None
         allst = set().union(*rets.values()) if rets else set()
         if len(allst) == 1:
             r = ('set', allst.pop())
@@ -275,13 +275,40 @@ class FlagAnalysis:
                         tid = v['t']
                         cw, dw = self.guard_effects(tid)
                         guards[v['n']] = (cw, dw, i)
+        UNT = ('U', 'T0', 'F0')
         def join(a, b):
             if a is None: return b
             if b is None: return a
-            return a if a == b else 'X'
+            if a == b: return a
+            if a in UNT and b in UNT: return 'U'
+            if {a, b} == {'F', 'F0'}: return 'F'
+            return 'X'
+        def unc(c):
+            while c and c['k'] in ('icast', 'cast'): c = f.nodes[c['e']]
+            return c
+        def deciding(tc, blk=None):
+            # in an if/while/for the block that evaluates the last operand of a && / || chain carries the whole chain as
+            # terminator condition and is reached only when the earlier operands did not short-circuit
+            c = unc(f.nodes[tc])
+            if blk is not None and blk.get('tk') not in ('IfStmt', 'WhileStmt', 'ForStmt', 'DoStmt'): return c
+            while c and c['k'] == 'bin' and c['op'] in ('&&', '||'): c = unc(f.nodes[c['rhs']])
+            return c
+        def implied(c, truth, out):
+            # atomic facts implied by the outcome of a condition: (node, value)
+            c = unc(c)
+            if not c: return
+            if c['k'] == 'un' and c['op'] == '!': implied(f.nodes[c['e']], not truth, out)
+            elif c['k'] == 'bin' and c['op'] == '&&' and truth: implied(f.nodes[c['lhs']], True, out); implied(f.nodes[c['rhs']], True, out)
+            elif c['k'] == 'bin' and c['op'] == '||' and not truth: implied(f.nodes[c['lhs']], False, out); implied(f.nodes[c['rhs']], False, out)
+            else: out.append((c, truth))
         IN = {b['id']: None for b in f.blocks}
         IN[f.entry] = (init, False)
-        calls = {}; rets = {}; condcalls = {}
+        calls = {}; rets = {}; condcalls = {}; sets = {}
+        try_guards = []   # (set of node ids of a try body, [guard vars declared inside])
+        for t in f.d.get('tries', []):
+            tn = set(t['nodes'])
+            gv = [g for g, (cw, dw, di) in guards.items() if di in tn]
+            try_guards.append((tn, gv, [h['b'] for h in t['handlers']]))
         work = [f.entry]; iters = 0
         while work and iters < 500:
             iters += 1
@@ -297,7 +324,9 @@ class FlagAnalysis:
                 k = n['k']
                 if k == 'asg' and f.base_member(n['lhs']) == FLAG_MEMBER:
                     r = f.nodes[n['rhs']]
-                    if r and r['k'] == 'lit' and isinstance(r.get('v'), bool): s = 'T' if r['v'] else 'F'; plain = bool(r['v'])
+                    if r and r['k'] == 'lit' and isinstance(r.get('v'), bool):
+                        if r['v']: sets[i] = join(sets.get(i), s)
+                        s = 'T' if r['v'] else 'F'; plain = bool(r['v'])
                     else: s = 'X'
                 elif k == 'decl':
                     for v in n['vars']:
@@ -322,11 +351,34 @@ class FlagAnalysis:
             if f.exit in succ and not any(f.nodes[i] and f.nodes[i]['k'] == 'ret' for i in blk['e']) and not f.aborts([b]):
                 last = blk['e'][-1] if blk['e'] else 0
                 rets[('end', b)] = (join(rets.get(('end', b), (None,))[0], s), None)
+            normal = f.succ(b, handlers=False)
             for ix, t in enumerate(succ):
                 s2 = s
+                if t not in normal:
+                    # exceptional edge into a handler: scope guards declared in the try body are destroyed during unwinding
+                    for tn, gv, hbs in try_guards:
+                        if t in hbs and any(e in tn for e in blk['e']):
+                            for g in gv:
+                                if guards[g][1] is not None: s2 = 'T' if guards[g][1] else 'F'
+                # branch on the flag itself: if (m_event_processing) / m_event_processing || ...
+                if tc and len(blk['s']) == 2 and t in blk['s'] and blk.get('tcv') is None:
+                    facts_ = []
+                    implied(f.nodes[tc], blk['s'].index(t) == 0, facts_)
+                    implied(deciding(tc, blk), blk['s'].index(t) == 0, facts_)
+                    for cn, val in facts_:
+                        if cn['k'] == 'mem' and cn['n'] == FLAG_MEMBER and s2 in UNT: s2 = 'T0' if val else 'F0'
+                    c0 = deciding(tc, blk); neg0 = False
+                    while c0 and c0['k'] == 'un' and c0['op'] == '!': neg0 = not neg0; c0 = unc(f.nodes[c0['e']])
+                    # backmp11: info == process_info::event_pool means the call comes from do_process_event_pool, which is only
+                    # entered with the flag tested false (rule poolchain)
+                    if c0 and c0['k'] == 'bin' and c0['op'] in ('!=', '=='):
+                        l0 = f.nodes[c0['lhs']]; r0 = f.nodes[c0['rhs']]
+                        if l0 and r0 and l0.get('n') == 'info' and r0.get('n') == 'event_pool':
+                            is_pool = ((blk['s'].index(t) == 0) != neg0) == (c0['op'] == '==')
+                            if is_pool and s2 in UNT: s2 = 'F0'
                 # refinement on a branch over a conditional flag helper: if (!helper()) / if (helper())
                 if tc and len(blk['s']) == 2 and blk.get('tcv') is None:
-                    c = f.nodes[tc]; neg = False
+                    c = deciding(tc, blk); neg = False
                     while c and c['k'] == 'un' and c['op'] == '!': neg = not neg; c = f.nodes[c['e']]
                     cid = None
                     if c and c['k'] == 'call':
@@ -343,7 +395,7 @@ class FlagAnalysis:
                 else: mer = (join(old[0], new[0]), old[1] or new[1])
                 if mer != old:
                     IN[t] = mer; work.append(t)
-        return {'calls': calls, 'rets': [(i, s, rv) for i, (s, rv) in rets.items()], 'guards': guards}
+        return {'calls': calls, 'rets': [(i, s, rv) for i, (s, rv) in rets.items()], 'guards': guards, 'sets': sets}
 
 FLAG_ROLE = {  # function name -> kinds of obligation
     'process_event_internal': 'event', 'process_completion_transition': 'event',
@@ -356,7 +408,7 @@ def flag(F, R):
     cands = [f for f in F.funcs if is_backend(f) and f.blocks and f.n in FLAG_ROLE and f.cls in ('state_machine', 'state_machine_base')]
     results = {}
     def touched(res):
-        return any(s != 'U' for i, s in res['calls'].items() if not isinstance(i, tuple)) or any(s != 'U' for _, s, _ in res['rets'])
+        return any(s not in ('U',) for i, s in res['calls'].items() if not isinstance(i, tuple)) or any(s != 'U' for _, s, _ in res['rets'])
     queue_classes = set()     # machine classes that take part in run-to-completion (their event entry point touches the flag)
     for f in cands:
         res = A.run(f)
@@ -375,14 +427,21 @@ def flag(F, R):
         check_flag_fn(F, E, A, R, f, f, res, role, be, 0)
         # I2: every exit leaves the flag cleared (or untouched on the re-entrant / blocked paths)
         for i, s, rv in res['rets']:
-            ok = s in ('U', 'F')
+            ok = s in ('U', 'F', 'T0', 'F0')
             if isinstance(i, tuple): i = 0
             R.ob('C04.flag-exit', ok, {'func': f.q, 'return_at': f.at(i), 'flag_state': s})
             if not ok:
-                R.find('C04.flag-exit', f, 'exit-state', 'function returns at %s with the processing flag %s' % (f.at(i), {'T': 'still set', 'X': 'not definitely cleared'}[s]), where=f.at(i))
+                R.find('C04.flag-exit', f, 'exit-state', 'function returns at %s with the processing flag %s' % (f.at(i), {'T': 'still set', 'X': 'not definitely cleared'}.get(s, s)), where=f.at(i))
 
 def check_flag_fn(F, E, A, R, top, f, res, role, be, depth):
     """I1 on one function body given the flag states at its call sites; descends into helpers that write the flag"""
+    if role == 'event' and top.n == 'process_event_internal':
+        # test-and-set: the flag is only set on a path where it was just tested false (else a nested submission would run re-entrantly)
+        for i, prior in res.get('sets', {}).items():
+            ok = prior in ('F', 'F0')
+            R.ob('C04.flag-test', ok, {'func': top.q, 'in': f.n, 'set_at': f.at(i), 'prior_state': prior})
+            if not ok:
+                R.find('C04.flag-test', top, 'set-untested', 'the processing flag is set at %s on a path where it was not tested false (state %s): an event arriving while another is processed is dispatched re-entrantly' % (f.at(i), prior), where=f.at(i))
     for i, s in res['calls'].items():
         if isinstance(i, tuple): continue
         n = f.nodes[i]
@@ -395,11 +454,11 @@ def check_flag_fn(F, E, A, R, top, f, res, role, be, depth):
                 gres = A.run(g, init=s)
                 if gres: check_flag_fn(F, E, A, R, top, g, gres, role, be, depth + 1)
             continue
-        if (cls & BEHAV) or core:
+        if (cls & (BEHAV | {'EXCEPTION_CAUGHT', 'NO_TRANSITION'})) or core:
             ok = s == 'T'
             R.ob('C04.flag', ok, {'func': top.q, 'in': f.n, 'call': n.get('n'), 'at': f.at(i), 'flag_state': s})
             if not ok:
-                R.find('C04.flag', top, 'unprotected:' + str(n.get('n')), 'call of %s (runs %s) in %s is made while the processing flag is %s: an event submitted from that behaviour is dispatched immediately instead of after the current step' % (n.get('n'), sorted(cls & BEHAV) or 'the dispatch', f.n, {'U': 'not set', 'F': 'cleared', 'X': 'not definitely set'}[s]), where=f.at(i))
+                R.find('C04.flag', top, 'unprotected:' + str(n.get('n')), 'call of %s (runs %s) in %s is made while the processing flag is %s: an event submitted from that behaviour is dispatched immediately instead of after the current step' % (n.get('n'), sorted(cls & BEHAV) or 'the dispatch', f.n, {'U': 'not set', 'F': 'cleared', 'X': 'not definitely set', 'F0': 'tested false but not set', 'T0': 'set by another step'}.get(s, s)), where=f.at(i))
             # exception safety of entry sequences: T established by a plain write around user behaviour
             if role == 'entry' and (cls & BEHAV):
                 plain = bool(res['calls'].get((i, 'plain'))) and not A.guarded(top)
@@ -407,7 +466,362 @@ def check_flag_fn(F, E, A, R, top, f, res, role, be, depth):
                 if plain:
                     R.find('C04.flag-exc', top, 'plain-set:' + str(n.get('n')), 'behaviour call %s runs between a plain set and clear of the processing flag with no scope guard: an exception leaves the flag set and the machine never dispatches again' % n.get('n'), where=f.at(i))
         if n.get('n') in ('process_completion_event', 'do_handle_prio_msg_queue_deferred_queue', 'process_message_queue', 'do_handle_deferred', 'process_event_pool', 'do_post_msg_queue_helper'):
-            ok = s in ('F',)
+            ok = s in ('F', 'F0')
             R.ob('C04.flag-drain', ok, {'func': top.q, 'call': n.get('n'), 'flag_state': s})
             if not ok:
                 R.find('C04.flag-drain', top, 'drain-under-flag:' + n['n'], 'pending-event processing %s is called with the processing flag %s (must be cleared first, otherwise nothing is dispatched)' % (n['n'], s), where=f.at(i))
+
+# ------------------------------------------------------------------ regions, result folding, no_transition (C06)
+
+def entries_dispatch(f, n):
+    """is this call the invocation of a dispatch-table cell (function pointer or functor taken from `entries[...]`)?
+    returns the index expression node id or None"""
+    if n['k'] != 'call': return None
+    cal = n.get('fn') or n.get('obj')
+    seen = 0
+    while cal and seen < 8:
+        seen += 1
+        c = f.nodes[cal]
+        if not c: return None
+        if c['k'] == 'sub':
+            b = f.nodes[c['b']]
+            while b and b['k'] in ('icast', 'cast'): b = f.nodes[b['e']]
+            if b and b['k'] == 'mem' and b['n'] == 'entries': return c['i']
+            return None
+        if c['k'] == 'un' and c['op'] in ('*', '&'): cal = c['e']
+        elif c['k'] in ('icast', 'cast'): cal = c['e']
+        elif c['k'] == 'call' and c.get('op') == '[]': 
+            o = f.nodes[c['obj']] if c.get('obj') else None
+            if o and o['k'] == 'mem' and o['n'] == 'entries': return c['args'][0] if c['args'] else None
+            return None
+        else: return None
+    return None
+
+def const_of(f, nid):
+    n = f.nodes[nid] if nid else None
+    if n is None: return None
+    if 'cv' in n: return n['cv']
+    if n['k'] == 'lit' and isinstance(n.get('v'), int): return int(n['v'])
+    if n['k'] == 'ref' and n.get('dk') in ('enum', 'smember', 'var', 'local') and 'v' in n: return n.get('v')
+    if n['k'] in ('icast', 'cast'): return const_of(f, n['e'])
+    return None
+
+def active_index(f, nid):
+    """for an expression m_states[k] / m_active_state_ids[k] (possibly + const): (index node, addend)"""
+    n = f.nodes[nid] if nid else None
+    add = 0
+    while n and n['k'] in ('icast', 'cast'): n = f.nodes[n['e']]
+    if n and n['k'] == 'bin' and n['op'] == '+':
+        c = const_of(f, n['rhs'])
+        if c is None: return None
+        add = c; n = f.nodes[n['lhs']]
+        while n and n['k'] in ('icast', 'cast'): n = f.nodes[n['e']]
+    if n and n['k'] == 'sub':
+        b = f.nodes[n['b']]
+        while b and b['k'] in ('icast', 'cast'): b = f.nodes[b['e']]
+        if b and b['k'] == 'mem' and b['n'] in ACTIVE_MEMBERS: return n['i'], add
+    if n and n['k'] == 'call' and n.get('op') == '[]' and n.get('obj'):
+        b = f.nodes[n['obj']]
+        if b and b['k'] == 'mem' and b['n'] in ACTIVE_MEMBERS: return (n['args'][0] if n['args'] else 0), add
+    return None
+
+def acc_writes(f, acc):
+    """(node, ok, text): every write of the accumulator must OR the old value with a dispatch result"""
+    out = []
+    for i, n in enumerate(f.nodes):
+        if not n: continue
+        if n['k'] == 'asg':
+            l = f.nodes[n['lhs']]
+            if l and l['k'] in ('ref', 'mem') and l['n'] == acc:
+                if n['op'] == '|=': out.append((i, True, f.expr(i)))
+                elif n['op'] == '=':
+                    from rules_order import dependency_closure
+                    dep = dependency_closure(f, n['rhs'])
+                    ors = [d for d in dep if f.nodes[d] and f.nodes[d]['k'] == 'bin' and f.nodes[d]['op'] == '|']
+                    ok = False
+                    for d in ors:
+                        dd = dependency_closure(f, d)
+                        if any(f.nodes[x] and f.nodes[x]['k'] in ('ref', 'mem') and f.nodes[x]['n'] == acc for x in dd): ok = True
+                    out.append((i, ok, f.expr(i)))
+                else: out.append((i, False, f.expr(i)))
+        elif n['k'] == 'call' and n.get('op') in ('|=', '&=', '=', '^=') and n.get('args'):
+            a0 = f.nodes[n['args'][0]] if not n.get('obj') else f.nodes[n['obj']]
+            if a0 and a0['k'] == 'ref' and a0['n'] == acc:
+                out.append((i, n['op'] == '|=', f.expr(i)))
+    return out
+
+@rule('regions')
+def regions(F, R):
+    E = Effects(F)
+    for f in F.funcs:
+        if not is_backend(f) or not f.blocks: continue
+        be = backend_of(f)
+        # ---- back / back11 region helpers
+        if f.n == 'process' and 'region_processing_helper' in f.classes and f.cls in ('In', 'region_processing_helper'):
+            calls = [(i, n) for i, n in f.calls()]
+            disp = [(i, n, entries_dispatch(f, n)) for i, n in calls]
+            disp = [(i, n, ix) for i, n, ix in disp if ix is not None]
+            rec = [(i, n) for i, n in calls if n.get('n') == 'process' and n.get('pc') == 'In']
+            fin = [(i, n) for i, n in calls if n.get('n') == 'process' and n.get('pc') == 'process_fsm_internal_table']
+            R.seen(f)
+            if f.cls == 'In':
+                region = f.cls_args()[0]
+                reg = int(region.split('<')[1].split('>')[0]) if isinstance(region, str) and '<' in region else None
+                if not disp:
+                    # terminal specialisation In<nr_regions>: only the machine-internal table
+                    R.anchor('region-end:' + be)
+                    ok = len(fin) == 1 and not rec
+                    R.ob('C06.regions', ok, {'func': f.q, 'region': reg, 'terminal': True})
+                    if not ok: R.find('C06.regions', f, 'terminal', 'end of the region recursion must dispatch to the machine-internal table exactly once')
+                    continue
+                R.anchor('region-step:' + be)
+                ok = len(disp) == 1 and len(rec) == 1
+                why = ''
+                if ok:
+                    i, n, ix = disp[0]
+                    ai = active_index(f, ix)
+                    a = n['args']
+                    # cell index = active id of this region + 1; arguments (fsm, region, active id of this region, evt)
+                    ok = ai is not None and const_of(f, ai[0]) == reg and ai[1] == 1
+                    if not ok: why = 'cell index %s is not m_states[%s]+1' % (f.expr(ix), reg)
+                    if ok and not (len(a) >= 4 and const_of(f, a[1]) == reg):
+                        ok = False; why = 'region argument %s is not %s' % (f.expr(a[1]) if len(a) > 1 else '?', reg)
+                    if ok:
+                        a2 = active_index(f, a[2])
+                        if not (a2 and const_of(f, a2[0]) == reg and a2[1] == 0): ok = False; why = 'state argument %s is not m_states[%s]' % (f.expr(a[2]), reg)
+                    if ok:
+                        # recursion continues with region+1, after the dispatch
+                        ri, rn = rec[0]
+                        nxt = F.strs[rn['pt']]
+                        if ('int_<%d>' % (reg + 1)) not in nxt: ok = False; why = 'recursion goes to %s, not region %d' % (Facts.short(nxt, 80), reg + 1)
+                        order = f.linear_nodes()
+                        if ok and order.index(ri) < order.index(i): ok = False; why = 'next region dispatched before this one'
+                else: why = '%d cell invocations, %d recursive calls' % (len(disp), len(rec))
+                R.ob('C06.regions', ok, {'func': f.q, 'region': reg})
+                if not ok: R.find('C06.regions', f, 'step', 'region step: ' + why)
+            elif rec and not disp:
+                # entry of the multi-region recursion: starts with region 0
+                R.anchor('region-entry:' + be)
+                ok = len(rec) == 1 and 'int_<0>' in F.strs[rec[0][1]['pt']]
+                R.ob('C06.regions', ok, {'func': f.q, 'starts_at': 0})
+                if not ok: R.find('C06.regions', f, 'entry', 'region recursion does not start with region 0')
+                continue
+            else:
+                R.anchor('region-single:' + be)
+                ok = len(disp) == 1 and len(fin) == 1
+                why = '%d cell invocations, %d internal-table calls' % (len(disp), len(fin))
+                if ok:
+                    i, n, ix = disp[0]; ai = active_index(f, ix); a = n['args']
+                    ok = bool(ai) and const_of(f, ai[0]) == 0 and ai[1] == 1 and len(a) >= 4 and const_of(f, a[1]) == 0
+                    a2 = active_index(f, a[2]) if len(a) > 2 else None
+                    ok = ok and bool(a2) and const_of(f, a2[0]) == 0
+                    why = 'cell index / arguments are not those of region 0: ' + f.expr(i)
+                R.ob('C06.regions', ok, {'func': f.q, 'region': 0})
+                if not ok: R.find('C06.regions', f, 'single', 'single-region step: ' + why)
+            # result folding
+            acc = 'result_' if f.cls == 'In' else 'result'
+            for i, ok, txt in acc_writes(f, acc):
+                R.ob('C06.or', ok, {'func': f.q, 'write': txt})
+                if not ok: R.find('C06.or', f, 'acc-write', 'accumulated result is overwritten instead of OR-ed: ' + txt, where=f.at(i))
+            if disp and not acc_writes(f, acc):
+                R.find('C06.or', f, 'acc-missing', 'the region result is not folded into the accumulated result')
+        # ---- machine-internal table gate (back / back11)
+        if f.n == 'do_process' and f.cls == 'process_fsm_internal_table':
+            disp = [(i, n, entries_dispatch(f, n)) for i, n in f.calls()]
+            disp = [(i, n, ix) for i, n, ix in disp if ix is not None]
+            if not disp: continue
+            R.seen(f); R.anchor('internal-gate:' + be)
+            i, n, ix = disp[0]
+            ok = const_of(f, ix) == 0
+            R.ob('C06.regions', ok, {'func': f.q, 'cell': f.expr(ix)})
+            if not ok: R.find('C06.regions', f, 'internal-cell', 'machine-internal table must use cell 0, found ' + f.expr(ix))
+            for wi, wok, txt in acc_writes(f, 'result'):
+                R.ob('C06.or', wok, {'func': f.q, 'write': txt})
+                if not wok: R.find('C06.or', f, 'acc-write', 'accumulated result is overwritten instead of OR-ed: ' + txt, where=f.at(wi))
+            # gate: the internal table is consulted only when the regions did not consume the event (bit test on both bits)
+            gate_ok = False
+            for p in f.paths():
+                if i not in f.path_nodes(p): continue
+                for b in p:
+                    blk = f.bmap[b]
+                    if blk.get('tc'):
+                        from rules_order import dependency_closure
+                        dep = dependency_closure(f, blk['tc'])
+                        names = {f.nodes[d]['n'] for d in dep if f.nodes[d] and f.nodes[d]['k'] == 'ref'}
+                        if 'result' in names and 'HANDLED_TRUE' in names and 'HANDLED_DEFERRED' in names: gate_ok = True
+            R.ob('C01.levels', gate_ok, {'func': f.q})
+            if not gate_ok: R.find('C01.levels', f, 'gate', 'machine-internal table is not gated by a test of the handled and deferred bits of the regions\' result')
+        # ---- do_process_event: accumulator, region loop (backmp11), no_transition contract
+        if f.n == 'do_process_event' and f.cls in ('state_machine', 'state_machine_base'):
+            R.seen(f); R.anchor('do_process_event:' + be)
+            acc = 'handled' if be != 'backmp11' else 'result'
+            init_ok = False
+            for n in f.nodes:
+                if n and n['k'] == 'decl':
+                    for v in n['vars']:
+                        if v['n'] == acc and v['hasinit']:
+                            iv = f.nodes[v['init']]
+                            if iv and iv['k'] == 'ref' and iv['n'] == 'HANDLED_FALSE': init_ok = True
+            R.ob('C06.or', init_ok, {'func': f.q, 'acc_init': acc})
+            if not init_ok: R.find('C06.or', f, 'acc-init', 'accumulated result does not start at HANDLED_FALSE')
+            for wi, wok, txt in acc_writes(f, acc):
+                R.ob('C06.or', wok, {'func': f.q, 'write': txt})
+                if not wok: R.find('C06.or', f, 'acc-write', 'accumulated result is overwritten instead of OR-ed: ' + txt, where=f.at(wi))
+            rets = [n for n in f.nodes if n and n['k'] == 'ret']
+            okr = bool(rets) and all(f.nodes[r['e']] and f.nodes[r['e']]['k'] == 'ref' and f.nodes[r['e']]['n'] == acc for r in rets)
+            R.ob('C06.or', okr, {'func': f.q, 'returns': acc})
+            if not okr: R.find('C06.or', f, 'ret', 'do_process_event does not return the accumulated result')
+            if be == 'backmp11':
+                mp11_region_loop(F, f, R)
+            no_transition_contract(F, E, f, R, acc, be)
+
+def mp11_region_loop(F, f, R):
+    """for (region_id = 0; region_id < nr_regions; region_id++) result |= dispatch(self, region_id, event); then the gated internal dispatch"""
+    disp = [(i, n) for i, n in f.calls() if n.get('n') == 'dispatch']
+    idisp = [(i, n) for i, n in f.calls() if n.get('n') == 'internal_dispatch']
+    ok = len(disp) == 1; why = '%d dispatch calls' % len(disp)
+    if ok:
+        i, n = disp[0]
+        a = n['args']
+        rv = f.nodes[a[1]] if len(a) > 1 else None
+        while rv and rv['k'] in ('icast', 'cast'): rv = f.nodes[rv['e']]
+        ok = bool(rv) and rv['k'] == 'ref' and rv.get('dk') == 'local'
+        why = 'region argument is not the loop variable'
+        if ok:
+            var = rv['n']
+            init0 = any(v['n'] == var and v['hasinit'] and const_of(f, v['init']) == 0 for m in f.nodes if m and m['k'] == 'decl' for v in m['vars'])
+            bound = False; inc = False
+            for b in f.blocks:
+                if b.get('tc'):
+                    c = f.nodes[b['tc']]
+                    if c['k'] == 'bin' and c['op'] == '<':
+                        l = f.nodes[c['lhs']]; r = f.nodes[c['rhs']]
+                        if l and l['k'] == 'ref' and l['n'] == var and r and r.get('n') == 'nr_regions': bound = True
+            for m in f.nodes:
+                if m and m['k'] == 'un' and m['op'] == '++':
+                    e = f.nodes[m['e']]
+                    if e and e['k'] == 'ref' and e['n'] == var: inc = True
+            ok = init0 and bound and inc
+            why = 'loop over regions: starts at 0=%s, bounded by nr_regions=%s, increments by one=%s' % (init0, bound, inc)
+    R.ob('C06.regions', ok, {'func': f.q, 'loop': why})
+    if not ok: R.find('C06.regions', f, 'mp11-loop', 'region loop: ' + why)
+    if idisp:
+        i, n = idisp[0]
+        gate_ok = False
+        for p in f.paths(edge_bound=1):
+            if i not in f.path_nodes(p): continue
+            for b in p:
+                blk = f.bmap[b]
+                if blk.get('tc'):
+                    from rules_order import dependency_closure
+                    dep = dependency_closure(f, blk['tc'])
+                    names = {f.nodes[d].get('n') for d in dep if f.nodes[d] and f.nodes[d]['k'] in ('ref', 'call')}
+                    if 'result' in names and ('handled_true_or_deferred' in names or ('HANDLED_TRUE' in names and 'HANDLED_DEFERRED' in names)) and 'operator&' in names: gate_ok = True
+            break
+        order = f.linear_nodes()
+        after = all(order.index(di) < order.index(i) for di, _ in disp)
+        R.ob('C01.levels', gate_ok and after, {'func': f.q})
+        if not (gate_ok and after): R.find('C01.levels', f, 'gate', 'machine-internal dispatch must follow the region loop and be gated by a bit test of handled|deferred on the accumulated result')
+
+def no_transition_contract(F, E, f, R, acc, be):
+    nts = [(i, n) for i, n in f.calls() if leaf_class(F, n) == 'NO_TRANSITION']
+    ev_t = f.targs()[0] if f.targs() else ''
+    from facts import strip_cvref
+    evrec = F.rec_by_type(strip_cvref(ev_t)) if isinstance(ev_t, str) else None
+    is_completion = bool(evrec and 'completion_event' in evrec['tds'])
+    reach = f.reachable_blocks()
+    live = [(i, n) for i, n in nts if any(i in f.bmap[b]['e'] for b in reach)]
+    if is_completion and be != 'backmp11':
+        R.anchor('nt-completion:' + be)
+        ok = not live
+        R.ob('C06.nt', ok, {'func': f.q, 'event': Facts.short(str(ev_t), 60), 'completion': True})
+        if not ok: R.find('C06.nt', f, 'completion-nt', 'no_transition is reachable for a completion event')
+        return
+    if not live:
+        R.ob('C06.nt', False, {'func': f.q})
+        R.find('C06.nt', f, 'nt-missing', 'no_transition is never called for event %s' % Facts.short(str(ev_t), 60))
+        return
+    R.anchor('nt-site:' + be)
+    ok = len(live) == 1; why = '%d no_transition call sites' % len(live)
+    if ok:
+        i, n = live[0]
+        # on `this`, with the event, once per region with that region's active id
+        o = f.nodes[n['obj']] if n.get('obj') else None
+        while o and o['k'] in ('icast', 'cast'): o = f.nodes[o['e']]
+        if not (o and o['k'] == 'this'): ok = False; why = 'no_transition is not called on the machine that processes the event'
+        a = n['args']
+        if ok:
+            st = a[2] if len(a) > 2 else 0
+            ai = active_index(f, st)
+            sn = f.nodes[st] if st else None
+            loopvar_ok = False
+            if ai:
+                iv = f.nodes[ai[0]]
+                while iv and iv['k'] in ('icast', 'cast'): iv = f.nodes[iv['e']]
+                loopvar_ok = bool(iv) and iv['k'] == 'ref' and iv.get('dk') == 'local' and ai[1] == 0
+            elif sn is not None:
+                # range-for over the active-state array: the element variable
+                while sn and sn['k'] in ('icast', 'cast'): sn = f.nodes[sn['e']]
+                if sn and sn['k'] == 'ref' and sn.get('dk') == 'local':
+                    for m in f.nodes:
+                        if m and m['k'] == 'decl':
+                            for v in m['vars']:
+                                if v['n'] == '__range5' or v['n'].startswith('__range'):
+                                    if f.base_member(v['init']) in ACTIVE_MEMBERS: loopvar_ok = True
+            if not loopvar_ok: ok = False; why = 'state argument %s is not the active id of the region being reported' % f.expr(st)
+        if ok:
+            # every path reaching the call passes "accumulated result is zero" (taken true) and the containment / direct-call test
+            zero_ok = True; cont_ok = True
+            for p in f.paths(edge_bound=1):
+                pn = f.path_nodes(p)
+                if i not in pn: continue
+                z = False; c = False
+                for bi, b in enumerate(p[:-1]):
+                    blk = f.bmap[b]
+                    if not blk.get('tc') or len(blk['s']) != 2: continue
+                    taken_true = p[bi + 1] == blk['s'][0]
+                    cn = f.nodes[blk['tc']]
+                    # the terminator of the block that evaluates the last operand of a && chain is the whole chain
+                    conj = []
+                    def flat(x):
+                        m = f.nodes[x]
+                        if m and m['k'] == 'bin' and m['op'] == '&&': flat(m['lhs']); flat(m['rhs'])
+                        else: conj.append(x)
+                    flat(blk['tc'])
+                    for x in conj:
+                        m = f.nodes[x]
+                        if m and m['k'] == 'un' and m['op'] == '!':
+                            e = f.nodes[m['e']]
+                            while e and e['k'] in ('icast', 'cast'): e = f.nodes[e['e']]
+                            if e and e['k'] == 'ref' and e['n'] == acc and taken_true: z = True
+                        from rules_order import dependency_closure
+                        dep = dependency_closure(f, x)
+                        nm = {f.nodes[d].get('n') for d in dep if f.nodes[d]}
+                        if ('is_contained' in nm or 'is_direct_call' in nm or 'info' in nm) and taken_true: c = True
+                zero_ok = zero_ok and z; cont_ok = cont_ok and c
+            if not zero_ok: ok = False; why = 'no_transition is reachable without the test "accumulated result is zero"'
+            elif not cont_ok: ok = False; why = 'no_transition is reachable without the containment / direct-call test'
+    R.ob('C06.nt', ok, {'func': f.q, 'event': Facts.short(str(ev_t), 60)})
+    if not ok: R.find('C06.nt', f, 'nt-contract', why)
+    # who else may call no_transition: nobody in the back-end except do_process_event and the Kleene-defer "unknown type" paths
+
+
+@rule('poolchain')
+def poolchain(F, R):
+    """backmp11: do_process_event_pool (which dispatches pending occurrences, incl. completion transitions that set the flag
+    without a test) is entered only from process_event_pool, after the test "pool empty or already processing"."""
+    E = Effects(F); A = FlagAnalysis(F, E)
+    for f in F.funcs:
+        if backend_of(f) != 'backmp11' or not f.blocks: continue
+        for i, n in f.calls():
+            if n.get('n') == 'do_process_event_pool':
+                R.seen(f); R.anchor('pool-entry:' + f.n)
+                ok = f.n == 'process_event_pool'
+                st = None
+                if ok:
+                    res = A.run(f)
+                    st = res['calls'].get(i) if res else None
+                    ok = st in ('F', 'F0')
+                R.ob('C04.flag-test', ok, {'func': f.q, 'call': 'do_process_event_pool', 'flag_state': st})
+                if not ok:
+                    R.find('C04.flag-test', f, 'pool-entry', 'do_process_event_pool is entered from %s with the processing flag %s (must be tested false first)' % (f.n, st), where=f.at(i))
